@@ -7,6 +7,7 @@ CONSTANTS
   MaxReplies = 3
   NonceURLs = {TRUE, FALSE}
   InitPools = {0, 1}
+  StopVals = {"zero", "neg"}
 VIEW MCView
 INVARIANTS TypeOK N1_FreshNonces N1_Discipline N2_Bounded N2_Cancel N3_LastReply N4_PoolCap MutexOK
 CHECK_DEADLOCK FALSE
